@@ -224,9 +224,10 @@ class Report:
               "coverage": cov, "assumptions": self.assumptions,
               "wall_s": round(time.time() - self.t0, 2), "violations": len(new),
               "known_findings_matched": [v.key for v in matched]}
-        os.makedirs(EVID, exist_ok=True)
-        with open(os.path.join(EVID, f"{self.pid}.json"), "w") as f:
-            json.dump(ev, f, indent=1, default=str)
+        if re.fullmatch(r"C\d+", self.pid):           # SELFTEST and the like are not properties: no evidence file
+            os.makedirs(EVID, exist_ok=True)
+            with open(os.path.join(EVID, f"{self.pid}.json"), "w") as f:
+                json.dump(ev, f, indent=1, default=str)
         print(f"[{self.pid}] tier={self.tier} seed={self.seed} states={cov['states']} transitions={cov['transitions']} "
               f"impl_traces={cov['traces_validated_against_impl']} evaluations={cov['evaluations']} "
               f"violations={len(new)} known={len(matched)} wall={ev['wall_s']}s")
